@@ -97,6 +97,16 @@ func checkC23(c *Ctx) *report.Result {
 			}
 		}
 		r.Ob("S-once", n == 1 && okArg && others == 0, "FF01 write delivers the byte once", where, fmt.Sprintf("writer calls %d (want 1), argument is the written byte: %v, other host calls: %d", n, okArg, others))
+		// ... on every path: the call is conditional on nothing but the writer being configured
+		var cond []string
+		for _, sy := range ev.ExternPath[writerCall] {
+			k := it.Syms[sy].Cell
+			if k.Obj == 0 || (k.Obj == serialObj.ID && ai.NormPath(k.Path) == ai.NormPath(writerPath)) || sy == ev.AddrSym {
+				continue
+			}
+			cond = append(cond, c.cellLabel(ai.CellKey{Obj: k.Obj, Path: ai.NormPath(k.Path)}))
+		}
+		r.Ob("S-once", len(cond) == 0, "FF01 write delivers the byte whatever the machine state", where, fmt.Sprintf("the writer call is conditional on %v: in some states a byte written to FF01 is not delivered", cond))
 		r.Ob("S-sync", len(ev.Stores) == 0, "FF01 write keeps no state", where, fmt.Sprintf("stores: %v", keysOf(ev.Stores)))
 		r.Sample(map[string]interface{}{"FF01_write_host_calls": ev.Externs, "stores": keysOf(ev.Stores)})
 	}
